@@ -251,6 +251,7 @@ Proof.
     + intros [r' [[<-|Hr] H]]; [left; exact H|]. apply in_map_iff in Hr. destruct Hr as [k [<- Hk]].
       right. exists k. split; [exact Hk | rewrite Hg; exact H].
   - exists [r_segs r]. intros t. cbn [fst In]. split; [intros H; exists (r_segs r); auto | intros [r' [[<-|[]] H]]; exact H].
+  - exists [r_segs r]. intros t. cbn [fst In]. split; [intros H; exists (r_segs r); auto | intros [r' [[<-|[]] H]]; exact H].
 Qed.
 
 (** what one effect run does to the subscription state *)
@@ -450,11 +451,31 @@ Proof.
   - intros x Hx. apply wake_queue in Hx. destruct Hx as [Hx| ->]; [apply Ql, Hx | exact He].
 Qed.
 
+Lemma do_set_u_pre n sh kc s chain new :
+  consistent n s -> all_read s ->
+  consistent n (fst (do_set_u sh kc s chain new)) /\ all_read (fst (do_set_u sh kc s chain new)).
+Proof.
+  intros Hc Ha. unfold do_set_u. destruct (walk (root_reached sh s) chain 0) as [r j].
+  destruct (negb (Nat.eqb j (length chain))); cbn [fst]; [auto|].
+  destruct (r_val r); cbn [fst];
+    (split; [eapply consistent_ext; [| | |exact Hc]; reflexivity | eapply all_read_ext; [|exact Ha]; reflexivity]).
+Qed.
+
+Lemma do_update_keys_pre n sh kc s chain :
+  consistent n s -> all_read s ->
+  consistent n (fst (do_update_keys sh kc s chain)) /\ all_read (fst (do_update_keys sh kc s chain)).
+Proof.
+  intros Hc Ha. unfold do_update_keys. destruct (walk (root_reached sh s) chain 0) as [r j].
+  destruct (negb (Nat.eqb j (length chain))); cbn [fst]; [auto|].
+  destruct (r_sh r); try destruct (r_val r); cbn [fst];
+    (split; [eapply consistent_ext; [| | |exact Hc]; reflexivity | eapply all_read_ext; [|exact Ha]; reflexivity]).
+Qed.
+
 Lemma do_step_quiescent sh readers sched kc s h :
   quiescent (length readers) s -> quiescent (length readers) (snd (do_step sh readers sched kc s h)).
 Proof.
   intros Hq. pose proof Hq as [Hc [Ha Hq0]]. unfold do_step, do_step_g. change (do_set_g wake) with do_set. change (do_patch_g wake) with do_patch.
-  destruct h as [chain v|chain v|chain|chain ks|e|].
+  destruct h as [chain v|chain v|chain|chain ks|e| |chain v|chain].
   - destruct (do_set_pre (length readers) sh kc s chain v Hc Ha) as [C1 A1].
     destruct (do_set sh kc s chain v) as [s1 ok]. cbn [fst] in *.
     apply report_quiescent, drain_quiescent; assumption.
@@ -478,6 +499,12 @@ Proof.
     + apply wake_consistent; assumption.
     + eapply all_read_ext; [|exact Ha]. apply wake_srcs.
   - apply report_quiescent. exact Hq.
+  - destruct (do_set_u_pre (length readers) sh kc s chain v Hc Ha) as [C1 A1].
+    destruct (do_set_u sh kc s chain v) as [s1 ok]. cbn [fst] in *.
+    apply report_quiescent, drain_quiescent; assumption.
+  - destruct (do_update_keys_pre (length readers) sh kc s chain Hc Ha) as [C1 A1].
+    destruct (do_update_keys sh kc s chain) as [s1 ok]. cbn [fst] in *.
+    apply report_quiescent, drain_quiescent; assumption.
 Qed.
 
 Lemma do_steps_quiescent sh readers sched : forall hs kcs s,
@@ -736,6 +763,18 @@ Proof.
     destruct (fk_new_synced v Hsync k seg idx G) as [it' [Hn Hk]]. rewrite Hn in Hval. inversion Hval as [Heq]. rewrite <- Heq. exact Hk.
 Qed.
 
+(** a keyed field nested below an item that was removed from the enclosing keyed collection
+    (through that collection's own guard) is not in the known class when its path segment is
+    taken over by a new item: its stale FieldKeys are gone (repair of F-C16-l), the next keyed
+    step creates them from the collection it finds *)
+Theorem recycled_slot_starts_fresh c1 c2 p latest m f seg q v :
+  km_find p m = Some f -> In seg (fk_removed f latest) -> starts_with (p ++ [seg]) q = true ->
+  NoDup (keys_of v) -> entry_synced (km_update c1 c2 p latest m) q v.
+Proof.
+  intros Hf Hin Hs Hnd. unfold entry_synced.
+  rewrite (update_keys_forgets_below_removed c1 c2 p latest m f seg q Hf Hin Hs). exact Hnd.
+Qed.
+
 (** the known class is inhabited: after `store.set(...)` reordered the keyed collection
     [7; 8; 9] into [9; 8; 7] (no update_keys), the reader of key 7 reaches the item of key 9 *)
 Example keyed_reader_follows_key_refuted :
@@ -773,10 +812,11 @@ Proof.
   - apply proper_prefix_length; assumption.
 Qed.
 
-(** the store's own guard (children, this, children): readers of the store first *)
-Lemma wake_pos_store r : wake_pos_k WRoot [] r = match r with [] => Some 0 | _ :: _ => Some 1 end.
+(** the store's own guard (children, children, this): readers of the store first *)
+Lemma wake_pos_store r : wake_pos_k WRoot [] r = match r with [] => Some 0 | _ :: _ => Some 2 end.
 Proof.
-  unfold wake_pos_k. cbn [notified]. destruct r as [|x r]; [reflexivity|].
+  unfold wake_pos_k. cbn [notified]. change (triggers_for_path []) with [Children []; Children []; This []].
+  destruct r as [|x r]; [reflexivity|].
   cbn [first_hit].
   assert (H1 : trig_in (Children []) (track_field (x :: r)) = false).
   { apply not_true_is_false. intros H. apply trig_in_In, in_track_field in H.
@@ -791,7 +831,7 @@ Theorem store_reader_queued_first n s e1 e2 r2 :
   exists q1 q2, st_queue (notify_all s (notified WRoot [])) = q1 ++ q2 /\ In e1 q1 /\ ~ In e2 q1 /\ In e2 q2.
 Proof.
   intros Hc Hq R1 R2 Hne.
-  apply (earlier_position_queued_first n s WRoot [] e1 e2 [] r2 0 1 Hc Hq R1 R2).
+  apply (earlier_position_queued_first n s WRoot [] e1 e2 [] r2 0 2 Hc Hq R1 R2).
   - apply wake_pos_store.
   - rewrite wake_pos_store. destruct r2; [congruence | reflexivity].
   - lia.
@@ -846,7 +886,7 @@ Lemma do_step_g_ext md md' sh readers sched kc s h : (forall s e, md s e = md' s
   do_step_g md sh readers sched kc s h = do_step_g md' sh readers sched kc s h.
 Proof.
   intros H. unfold do_step_g, do_set_g, do_patch_g.
-  destruct h as [chain v|chain v|chain|chain ks|e|]; try reflexivity.
+  destruct h as [chain v|chain v|chain|chain ks|e| |chain v|chain]; try reflexivity.
   - destruct (walk (root_reached sh s) chain 0) as [r j].
     destruct (negb (Nat.eqb j (length chain))); [reflexivity|].
     destruct (r_val r); [|reflexivity]. rewrite (notify_all_g_ext md md' H). reflexivity.
